@@ -156,7 +156,7 @@ theorem maporder_harmless (d : Data) (h : UniformShardType d) (p q : Nat) (c : C
   | _ => rfl
 
 /-- a policy holding a measurement without a shard key next to a keyed one: the pick decides
-between a panic and a new shard group (the state the harness reaches with
+between a refusal (a panic before the `fix:`) and a new shard group (the state the harness reaches with
 `CreateMeasurement … m0 hash:t0`, `CreateMeasurement … m1` *without* Ski). -/
 def mixedLog : List Cmd := [
   .createDataNode "n1:8400" "n1:8401" "",
